@@ -18,21 +18,27 @@ def case_id(b):
 
 
 def merge_cases(behs):
-    """TLC emits one behaviour per completed call; merge the calls on one case into one execution."""
-    cases, helper = {}, []
+    """TLC emits the history of every completed call; merge the histories on one case into one execution:
+    Encode once, then every maximal history after it (each starts with a Decode, which re-reads the encoded
+    bytes into a fresh receive buffer; the buffer life-cycle steps ReuseBuffer / FreeBuffer / Observe follow
+    the Decode they belong to)."""
+    cases, helper, tails = {}, [], {}
     for b in behs:
         if b.get("helper"):
             helper += [s for s in b["steps"]]
             continue
         cid = case_id(b)
-        c = cases.setdefault(cid, {"case": cid, "sub": b["sub"], "v": b["v"], "klen": b["klen"], "fp": b["fp"],
-                                   "m": b["m"], "mi": b["mi"], "fpo": b["fpo"], "n": b["n"], "steps": [{"a": "Encode"}]})
-        for s in b["steps"]:
-            if s["a"] != "Encode" and s not in c["steps"]:
-                c["steps"].append(s)
+        c = cases.setdefault(cid, {"case": cid, "sub": b["sub"], "v": b["v"], "klen": b["klen"], "fp": b["fp"]})
+        if "m" in b:
+            c.update(m=b["m"], mi=b["mi"], fpo=b["fpo"], n=b["n"])
+        tails.setdefault(cid, set()).add(tuple(json.dumps(s, sort_keys=True) for s in b["steps"][1:]))
     order = {"same": 0, "other": 1, "none": 2}
-    for c in cases.values():
-        c["steps"] = [c["steps"][0]] + sorted(c["steps"][1:], key=lambda s: order.get(s.get("key"), 9))
+    for cid, c in cases.items():
+        ts = tails[cid]
+        prefixes = {t[:i] for t in ts for i in range(len(t))}
+        mx = [[json.loads(s) for s in t] for t in ts if t and t not in prefixes]
+        mx.sort(key=lambda t: (order.get(t[0].get("key"), 9), -len(t), json.dumps(t)))
+        c["steps"] = [{"a": "Encode"}] + [s for t in mx for s in t]
     hs = sorted({json.dumps(s, sort_keys=True) for s in helper})
     hsteps = sorted((json.loads(s) for s in hs), key=lambda s: (s["a"], s.get("kl", 0), s["tl"]))
     # small messages first (the trace validator keeps a bounded sample of failures per predicate, in trace order)
@@ -159,6 +165,8 @@ def _pipeline(chk, replay, quick):
     chk.cov["bit_flips_accepted_evaluated"] = st["fliplogged"]
     chk.cov["bit_flips_accepted_that_reframe_away_MI"] = st["reframed"]
     chk.cov["helper_calls"] = nhelper
+    chk.cov["read_backs_after_buffer_reuse_or_free"] = sum(1 for o in lines if o.get("e") == "Observe")
+    chk.cov["cases_with_buffer_life_cycle"] = sum(1 for b in execs if any(x["a"] == "Observe" for x in b.get("steps", [])))
     chk.cov["fuzz_inputs"] = st["fuzz"]
     chk.cov["fuzz_accepted"] = st["fuzzacc"]
     chk.cov["fuzz_accepted_evaluated"] = st["fuzzlogged"]
@@ -172,6 +180,7 @@ def _pipeline(chk, replay, quick):
         "6 value variants covering string/data lengths 0..5 mod 4, IPv4/IPv6, plain and XOR-ed; key lengths "
         "{0,1,20,63,64,65,128,300}; fingerprint on/off; quick = rotated key/fingerprint for singles and pairs, thorough = full product); "
         "each encoded by the real QXmppStunMessage, decoded under the same key / another key (first or last byte changed) / no key, "
+        "the decoded message read back after its heap receive buffer was overwritten in place and again after it was freed, "
         "every single-bit flip decoded under the key; public HMAC helper for key lengths 0..300 x 5 text lengths; seeded random and "
         "damaged byte strings under ASan/UBSan (sanitizer = oracle for memory safety). Reference values by python hmac/hashlib/zlib. "
         "distinct_nontrivial = distinct encoded byte strings longer than the bare header. evaluations = encode + decode + helper "
@@ -208,6 +217,8 @@ def _pipeline(chk, replay, quick):
         sig = "C14:%s:%s:%s:%s" % (key[0], key[1], key[2], "+".join(b.get("sub", [])) or ("helper" if b.get("helper") else "none"))
         what = {
             "RoundTrip": "a built message does not decode back to the same attribute values",
+            "ValueStable": "the attribute values of a decoded message changed after decode(): the message refers to the "
+                           "datagram buffer it was decoded from, which was then overwritten in place / destroyed",
             "MI-RFC": "MESSAGE-INTEGRITY written by encode() is not HMAC-SHA1(key, message) of RFC 5389/2104",
             "FP-RFC": "FINGERPRINT written by encode() is not CRC-32 xor 0x5354554e",
             "Enc-Framing": "encode() output is not a well-framed message carrying the requested MESSAGE-INTEGRITY/FINGERPRINT",
